@@ -81,3 +81,10 @@ def _c13_normalized_trailing_newline(v, m):
     from props.C13 import ref_normalized
     s = v["input"]["s"]
     return s.endswith("\n") and (ref_normalized(s[:-1]) or _c13_dd(s[:-1]))
+
+
+# ---------------------------------------------------------------- C14
+@matcher("c14_damage_kind")
+def _c14_damage_kind(v, m):
+    """exactly the wheel_rejects inputs of one damage kind (the kind names the class: every input of the kind is affected)"""
+    return v["input"].get("damage") == m["damage"]
